@@ -396,12 +396,29 @@ pub fn unescape_string(s: &str) -> Result<String> {
                 Some('b') => result.push('\x08'),
                 Some('f') => result.push('\x0C'),
                 Some('u') => {
-                    let hex: String = chars.by_ref().take(4).collect();
-                    if hex.len() != 4 {
-                        bail!("invalid unicode escape: incomplete sequence");
+                    let mut read_hex4 = || -> Result<u32> {
+                        let hex: String = chars.by_ref().take(4).collect();
+                        if hex.len() != 4 {
+                            bail!("invalid unicode escape: incomplete sequence");
+                        }
+                        u32::from_str_radix(&hex, 16)
+                            .wrap_err_with(|| format!("invalid unicode escape: \\u{}", hex))
+                    };
+                    let mut cp = read_hex4()?;
+                    if (0xD800..0xDC00).contains(&cp) {
+                        // RFC 8259 section 7: a character outside the BMP is escaped as a
+                        // UTF-16 surrogate pair \uD800-\uDBFF \uDC00-\uDFFF
+                        let mut rest = chars.clone();
+                        if rest.next() == Some('\\') && rest.next() == Some('u') {
+                            let hex: String = rest.by_ref().take(4).collect();
+                            if let (4, Ok(lo)) = (hex.len(), u32::from_str_radix(&hex, 16)) {
+                                if (0xDC00..0xE000).contains(&lo) {
+                                    cp = 0x10000 + ((cp - 0xD800) << 10) + (lo - 0xDC00);
+                                    chars = rest;
+                                }
+                            }
+                        }
                     }
-                    let cp = u32::from_str_radix(&hex, 16)
-                        .wrap_err_with(|| format!("invalid unicode escape: \\u{}", hex))?;
                     if let Some(ch) = char::from_u32(cp) {
                         result.push(ch);
                     } else {
